@@ -42,6 +42,8 @@ type verifSock struct {
 	shortAt   int  // the i-th WriteTo reports a short write
 	closed    bool
 	closedCh  chan struct{}
+	results   []bool // per WriteTo call: did it succeed
+	failMask  int    // bit i set: the (i+1)-th WriteTo fails
 }
 
 func verifNewSock() *verifSock {
@@ -68,9 +70,11 @@ func (c *verifSock) ReadFrom(p []byte) (int, net.Addr, error) {
 
 func (c *verifSock) WriteTo(p []byte, addr net.Addr) (int, error) {
 	c.attempts++
-	if c.failAll || (c.failWrite != 0 && c.attempts == c.failWrite) {
+	if c.failAll || (c.failWrite != 0 && c.attempts == c.failWrite) || c.failMask>>(uint(c.attempts)-1)&1 != 0 {
+		c.results = append(c.results, false)
 		return 0, verifErr{"verifSock: write failed"}
 	}
+	c.results = append(c.results, true)
 	m, ok := verifDecodeMsg(p)
 	c.sent = append(c.sent, verifSent{b: p, addr: addr, msg: m, ok: ok})
 	if c.shortAt != 0 && c.attempts == c.shortAt {
@@ -93,7 +97,10 @@ func (c *verifSock) SetWriteDeadline(t time.Time) error { return nil }
 
 // deliver hands one datagram to the serve loop and lets the node run until nothing more can happen.
 func (c *verifSock) deliver(b []byte, from net.Addr) {
-	c.in <- verifDatagram{b: b, n: -1, addr: from}
+	select {
+	case c.in <- verifDatagram{b: b, n: -1, addr: from}:
+	case <-c.closedCh: // a closed socket receives nothing
+	}
 	verifQuiesce()
 }
 
